@@ -130,6 +130,19 @@ ENTITY_BATTERY = [
     ('photo owner refers to an entity of the wrong type', [{'uid': par('Photo', 'p'), 'attrs': {'owner': ent('Group', 'g')}, 'parents': []}], False, 1),
 ]
 
+# entities built through the API (Entity::new_with_tags), not parsed: (label, api_entity, conforms)
+API_ENTITY_BATTERY = [('enumerated entity without attributes (built through the API)', {'uid': 'Color::"red"', 'attrs': {}, 'tags': {}}, True),
+                      ('enumerated entity with an undeclared attribute (built through the API)', {'uid': 'Color::"red"', 'attrs': {'shade': 1}, 'tags': {}}, False),
+                      ('enumerated entity with a tag (built through the API)', {'uid': 'Color::"red"', 'attrs': {}, 'tags': {'t': 1}}, False),
+                      ('entity of a type without tags carrying a tag (built through the API)', {'uid': 'Group::"g"', 'attrs': {}, 'tags': {'t': 1}}, False)]
+# partial requests ("?" = unknown), through cedar_policy_core::ast::Request::new_with_unknowns: every KNOWN component is checked
+PARTIAL_REQUEST_BATTERY = [('partial request: principal known and of an applicable type, resource unknown', {'principal': 'User::"a"', 'action': 'Action::"view"', 'resource': '?'}, True),
+                           ('partial request: principal unknown, resource known and applicable', {'principal': '?', 'action': 'Action::"view"', 'resource': 'Photo::"p"'}, True),
+                           ('partial request: principal of a type the action does not apply to, resource unknown', {'principal': 'Photo::"p"', 'action': 'Action::"view"', 'resource': '?'}, False),
+                           ('partial request: resource of a type the action does not apply to, principal unknown', {'principal': '?', 'action': 'Action::"view"', 'resource': 'User::"a"'}, False),
+                           ('partial request: undeclared principal type, resource unknown', {'principal': 'Ghost::"g"', 'action': 'Action::"view"', 'resource': '?'}, False),
+                           ('partial request: undeclared action, everything else unknown', {'principal': '?', 'action': 'Action::"nope"', 'resource': '?'}, False),
+                           ('partial request: everything unknown but the action', {'principal': '?', 'action': 'Action::"view"', 'resource': '?'}, True)]
 REQ = {'principal': 'User::"a"', 'action': 'Action::"view"', 'resource': 'Photo::"p"', 'context': {'n': 1}}
 REQUEST_BATTERY = [
     ('conformant request', {}, True),
@@ -187,6 +200,24 @@ def _battery_run(ctx, name, role, why, cache):
                 what = f'`{label}` is {"accepted" if r == "ok" else "rejected"} by {ep} ({r[:120]}), a datum that {"conforms" if want else "violates exactly this requirement"}'
                 cache['bad'] = (what, {'op': 'conformance', 'schema': SCHEMA, 'entities': ents, 'expected_accept': want, 'entry_point': ep})
                 return ctx.violation(name, role, f'{why}; natively: {what}', cache['bad'][1])
+    for label, ent_, want in API_ENTITY_BATTERY:
+        a = ctx.native.ask({'op': 'conformance', 'schema': SCHEMA, 'api_entity': ent_})
+        if 'entities' not in a or 'input_error' in a['entities']:
+            return ctx.mismatch(name, f'conformance probe `{label}` failed: {a}')
+        for ep, r in a['entities'].items():
+            if (r == 'ok') != want:
+                what = f'`{label}` is {"accepted" if r == "ok" else "rejected"} by {ep} ({r[:120]})'
+                cache['bad'] = (what, {'op': 'conformance', 'schema': SCHEMA, 'api_entity': ent_, 'expected_accept': want, 'entry_point': ep})
+                return ctx.violation(name, role, f'{why}; natively: {what}', cache['bad'][1])
+    for label, rq, want in PARTIAL_REQUEST_BATTERY:
+        a = ctx.native.ask({'op': 'conformance', 'schema': SCHEMA, 'partial_request': rq})
+        if 'request' not in a or 'input_error' in a['request']:
+            return ctx.mismatch(name, f'conformance probe `{label}` failed: {a}')
+        for ep, r in a['request'].items():
+            if (r == 'ok') != want:
+                what = f'`{label}` is {"accepted" if r == "ok" else "rejected"} by {ep} ({r[:120]})'
+                cache['bad'] = (what, {'op': 'conformance', 'schema': SCHEMA, 'partial_request': rq, 'expected_accept': want, 'entry_point': ep})
+                return ctx.violation(name, role, f'{why}; natively: {what}', cache['bad'][1])
     for label, delta, want in REQUEST_BATTERY:
         rq = dict(REQ)
         rq.update(delta)
@@ -200,7 +231,7 @@ def _battery_run(ctx, name, role, why, cache):
                 what = f'request `{label}` is {"accepted" if r == "ok" else "rejected"} by {ep} ({r[:120]})'
                 cache['bad'] = (what, {'op': 'conformance', 'schema': SCHEMA, 'request': rq, 'expected_accept': want, 'entry_point': ep})
                 return ctx.violation(name, role, f'{why}; natively: {what}', cache['bad'][1])
-    return ('unreplayed', f'{why}; but the battery of {len(ENTITY_BATTERY) + len(REQUEST_BATTERY)} single-requirement conformance probes behaves as specified on every entry point')
+    return ('unreplayed', f'{why}; but the battery of {len(ENTITY_BATTERY) + len(REQUEST_BATTERY) + len(API_ENTITY_BATTERY) + len(PARTIAL_REQUEST_BATTERY)} single-requirement conformance probes behaves as specified on every entry point')
 
 
 def battery_selftest(ctx):
